@@ -16,6 +16,7 @@ import (
 	"hash/fnv"
 	"reflect"
 	"sort"
+	"sync"
 
 	gcbor "github.com/blinklabs-io/gouroboros/cbor"
 	"github.com/blinklabs-io/gouroboros/ledger"
@@ -689,6 +690,7 @@ func (m *mon) checkObject(o *object, v variant, r *core.Rand) {
 func run(c *core.Ctx) {
 	m := &mon{c: c}
 	blocks := corpus.MustBlocks(c.RepoDir)
+	concurrentFirstHash(c, blocks)
 
 	type blockCase struct {
 		b     *corpus.Block
@@ -866,4 +868,69 @@ func policyClass(name string) string {
 		}
 	}
 	return name
+}
+
+// concurrentFirstHash: identifiers are computed lazily on first use. Several
+// goroutines asking a FRESHLY decoded header / block / transaction for its
+// identifier at the same moment must all get the hash of the decoded bytes (a
+// cache that is published before it is filled shows up as a zero or partial
+// hash here). Pure value check; the build is not a -race build.
+func concurrentFirstHash(c *core.Ctx, blocks []corpus.Block) {
+	rounds := c.N(250, 4000)
+	const workers = 8
+	for bi := range blocks {
+		b := &blocks[bi]
+		n, err := cborx.ParseExact(b.Cbor)
+		if err != nil || n.Kind != cborx.Array || len(n.Items) == 0 {
+			continue
+		}
+		hdrBytes := n.Items[0].Slice(b.Cbor)
+		j := &judge{m: &mon{c: c}, entry: "concurrent-first-Hash", input: hdrBytes, vname: "identity"}
+		want := j.headerHash(b.Type, hdrBytes)
+		bad := 0
+		for r := 0; r < rounds && bad == 0; r++ {
+			hdr, err := ledger.NewBlockHeaderFromCbor(b.Type, hdrBytes)
+			if err != nil || hdr == nil {
+				break
+			}
+			blk, berr := ledger.NewBlockFromCbor(b.Type, b.Cbor, skipCfg())
+			var start sync.WaitGroup
+			var done sync.WaitGroup
+			start.Add(1)
+			got := make([][]byte, 2*workers)
+			for w := 0; w < workers; w++ {
+				done.Add(1)
+				go func(w int) {
+					defer done.Done()
+					start.Wait()
+					h := hdr.Hash()
+					got[w] = append([]byte(nil), h.Bytes()...)
+					if berr == nil && blk != nil {
+						bh := blk.Hash()
+						got[workers+w] = append([]byte(nil), bh.Bytes()...)
+					}
+				}(w)
+			}
+			start.Done()
+			done.Wait()
+			c.Eval()
+			for i, g := range got {
+				if g == nil {
+					continue
+				}
+				if !bytes.Equal(g, want) {
+					which := "header"
+					if i >= workers {
+						which = "block"
+					}
+					c.Violation("C01:concurrent-first-Hash:"+typeName(hdr), fmt.Sprintf("%d goroutines asked a freshly decoded %s %s for its hash at the same time; one got %x, the decoded bytes hash to %x (round %d)", workers, b.Name, which, g, want, r),
+						map[string]any{"block": b.Name, "header_hex": core.HexFull(hdrBytes)})
+					bad++
+					break
+				}
+			}
+		}
+		c.Count("concurrent_first_hash_rounds", rounds)
+		c.Distinct("concurrent-first-hash", b.Name)
+	}
 }
